@@ -1005,7 +1005,8 @@ class Scores:
                 def _estimate_bandwidth(x: np.ndarray) -> float:
                     # The rule for the bandwidth estimation is taken from the wiki page
                     # https://en.wikipedia.org/wiki/Kernel_density_estimation
-                    iqr = np.quantile(x, 0.75) - np.quantile(x, 0.25)
+                    # abs() because the difference can be -0.0, which is not a valid scale
+                    iqr = abs(np.quantile(x, 0.75) - np.quantile(x, 0.25))
                     h = 0.9 * min(x.std(), iqr / 1.34) * math.pow(len(x), -0.2)
                     return h
 
